@@ -1248,7 +1248,15 @@ func genReopenRm(e *emitter) {
 			for i, d := range defs {
 				ops = append(ops, Op{K: "regpipe", Pid: i + 1, Ety: 1, IDs: d})
 			}
-			ops = append(ops, Op{K: "regpipe", Pid: 1, Ety: 2, IDs: defs[0]},
+			ops = append(ops, Op{K: "regpipe", Pid: 1, Ety: 2, IDs: defs[0]})
+			if victim%2 == 1 {
+				// thresholds are Send's business: a met threshold excuses no Reopen failure
+				ops = append(ops, Op{K: "thrs", Ety: 1, V: int64(victim % 3)}, Op{K: "thr", Ety: 1, V: 1}, Op{K: "thrs", Ety: 2, V: 1})
+			}
+			for f := 1; f <= 8; f++ {
+				ops = append(ops, Op{K: "reopen", Fail: f, V: int64(f % 2)})
+			}
+			ops = append(ops,
 				Op{K: "reopen"}, Op{K: "reopenrm", Ety: 1, Pid: victim}, Op{K: "reopen"}, Op{K: "reopenrm", Ety: 2, Pid: 1}, Op{K: "reopen"})
 			e.emit(Case{Gen: "reopenrm", Types: []int{1, 2}, Ops: numberObjs(ops)})
 		}
